@@ -25,3 +25,12 @@ theories/Bitmap/GenProofs.vos theories/Bitmap/GenProofs.vok theories/Bitmap/GenP
 theories/Properties_C16.vo theories/Properties_C16.glob theories/Properties_C16.v.beautified theories/Properties_C16.required_vo: theories/Properties_C16.v theories/Bitmap/BmGen.vo theories/Bitmap/RBModel.vo theories/Bitmap/BAModel.vo theories/Bitmap/FSetLemmas.vo theories/Bitmap/BackendOk.vo theories/Bitmap/RBProofs.vo theories/Bitmap/BAProofs.vo theories/Bitmap/GenProofs.vo
 theories/Properties_C16.vio: theories/Properties_C16.v theories/Bitmap/BmGen.vio theories/Bitmap/RBModel.vio theories/Bitmap/BAModel.vio theories/Bitmap/FSetLemmas.vio theories/Bitmap/BackendOk.vio theories/Bitmap/RBProofs.vio theories/Bitmap/BAProofs.vio theories/Bitmap/GenProofs.vio
 theories/Properties_C16.vos theories/Properties_C16.vok theories/Properties_C16.required_vos: theories/Properties_C16.v theories/Bitmap/BmGen.vos theories/Bitmap/RBModel.vos theories/Bitmap/BAModel.vos theories/Bitmap/FSetLemmas.vos theories/Bitmap/BackendOk.vos theories/Bitmap/RBProofs.vos theories/Bitmap/BAProofs.vos theories/Bitmap/GenProofs.vos
+theories/IoCache/IoModel.vo theories/IoCache/IoModel.glob theories/IoCache/IoModel.v.beautified theories/IoCache/IoModel.required_vo: theories/IoCache/IoModel.v 
+theories/IoCache/IoModel.vio: theories/IoCache/IoModel.v 
+theories/IoCache/IoModel.vos theories/IoCache/IoModel.vok theories/IoCache/IoModel.required_vos: theories/IoCache/IoModel.v 
+theories/IoCache/IoProofs.vo theories/IoCache/IoProofs.glob theories/IoCache/IoProofs.v.beautified theories/IoCache/IoProofs.required_vo: theories/IoCache/IoProofs.v theories/IoCache/IoModel.vo
+theories/IoCache/IoProofs.vio: theories/IoCache/IoProofs.v theories/IoCache/IoModel.vio
+theories/IoCache/IoProofs.vos theories/IoCache/IoProofs.vok theories/IoCache/IoProofs.required_vos: theories/IoCache/IoProofs.v theories/IoCache/IoModel.vos
+theories/Properties_C17.vo theories/Properties_C17.glob theories/Properties_C17.v.beautified theories/Properties_C17.required_vo: theories/Properties_C17.v theories/IoCache/IoModel.vo theories/IoCache/IoProofs.vo
+theories/Properties_C17.vio: theories/Properties_C17.v theories/IoCache/IoModel.vio theories/IoCache/IoProofs.vio
+theories/Properties_C17.vos theories/Properties_C17.vok theories/Properties_C17.required_vos: theories/Properties_C17.v theories/IoCache/IoModel.vos theories/IoCache/IoProofs.vos
